@@ -236,8 +236,12 @@ func (p *parser) parseFloat(n *yaml.Node) *Float {
 	}
 
 	f, err := strconv.ParseFloat(n.Value, 64)
-	if err != nil || math.IsNaN(f) {
+	if err != nil {
 		p.errorf(n, "invalid float value: %q: %s", n.Value, err.Error())
+		return nil
+	}
+	if math.IsNaN(f) {
+		p.errorf(n, "invalid float value: %q: NaN is not allowed", n.Value)
 		return nil
 	}
 
